@@ -243,6 +243,26 @@ def r3_order_uniqueness(chk: Check):
     po = tree.func("core.objects", "ConfigInformation.FromPython.postprocess")
     ok = any(isinstance(s, ast.Assign) and src(s.targets[0]) == "self.pre_tasks[id(pre_task)]" for s in ast.walk(po.node))
     chk.require(ok, chk.fkey(po, "pre-tasks keyed by identity"), "gathered pre-tasks must be keyed by identity", chk.loc(po.module, po.node))
+    # ... every pre-task of every converted configuration is gathered: no condition inside the gathering loop (what is shared is handled by the
+    # key; a store shared with an earlier call says nothing about pre-tasks having run)
+    gp = CFG(po.node)
+    for nd in gp.live:
+        if nd.kind == "stmt" and isinstance(nd.ast, ast.Assign) and src(nd.ast.targets[0]).startswith("self.pre_tasks["):
+            loops_ = [h for h in gp.live if h.kind == "for" and "pre_tasks" in src(h.ast.iter) and gp.dominates(h, nd)]
+            extra = [(src(t.ast), pol) for t, pol in gp.guards(nd) if t.kind == "test" and any(gp.dominates(h, t) for h in loops_)]
+            chk.require(not extra, chk.fkey(po, "every pre-task gathered"), f"a pre-task is gathered only under {extra}: a pre-task shared with an object built by an earlier call (same object store) is never executed", chk.loc(po.module, nd.ast))
+    # the walk memo is filled by the walk only, one configuration at a time and once it is built: pre-filling it from the object store hands out
+    # stubs that an earlier, failed conversion left unfinished
+    for ff in tree.nontest_funcs():
+        if ff.module.name != "core.objects":
+            continue
+        for c in fn_calls(ff.node):
+            if tail(c) == "update" and isinstance(c.func, ast.Attribute) and src(c.func.value).endswith(".visited"):
+                chk.violation(chk.fkey(ff, "walk memo pre-filled"), f"`{src(c)[:70]}` in `{ff.qual}` fills the memo of the configuration walk in bulk: configurations whose objects exist but were never "
+                              "completed (a failed __post_init__) are returned as they are", chk.loc(ff.module, c))
+        for x in body_walk(ff.node):
+            if isinstance(x, ast.Assign) and any(src(t).endswith(".visited") for t in x.targets) and ff.qual != "ConfigWalk.__init__":
+                chk.violation(chk.fkey(ff, "walk memo replaced"), f"`{norm_stmt(x)}` in `{ff.qual}` replaces the memo of the configuration walk", chk.loc(ff.module, x))
 
 
 def r4_walk_reaches_every_node(chk: Check):
